@@ -83,6 +83,11 @@ def correspond(run):
         else:
             branches["fast-tests"] += 1
         branches["rejections"] += len([b for b in c["b3s"] if not b])
+    for c in js.get("range_bad", [])[:1]:
+        run.violation("exp01-range", "ExpRestricted01(lambda=%r) returned %r, outside [0,1), for the generator outputs %s (unit draws %s)" % (
+            c["lambda"], c["result"], c["raw_draws"][:4], c["first_units"]),
+            {"kind": "impl-input", "input": {"lambda": c["lambda"], "raw_draws": c["raw_draws"]}, "observed": c["result"]})
+    run.coverage["range_extreme_scripts"] = js.get("range_tried", 0)
     outside = [c for c in cases if not (0.0 <= c["result"] < 1.0)]
     for c in outside[:1]:
         run.violation("exp01-range", "ExpRestricted01(lambda=%r) returned %r, outside [0,1)" % (c["lambda"], c["result"]),
